@@ -31,7 +31,7 @@ def runSweep (payload : String) : String × String × String :=
           if i + 2 < n && (o.startsWith "Push ") then "Push D0 self1"
           else if i + 1 < n && o.startsWith "SetReadOnly" && i + 2 != n && i + 1 != n then o else o)
       else outs
-    let outs := if mode == "queries" && recv.startsWith "K" then outs ++ ["tamper D0"] else outs
+    let outs := if mode == "queries" && recv.startsWith "K" then outs ++ ["tamper D0 A0"] else outs
     let line := " ; ".intercalate outs
     -- methods classified from the facts only: their zero result is not known to the table
     let unknown := calls.filterMap (fun call =>
